@@ -292,8 +292,14 @@ impl<H: MsgHeader> Endpoint<H> {
             iov_base: rbuf.as_mut_ptr() as *mut c_void,
             iov_len: len,
         }];
+        // The stream may deliver the data in several segments, so loop until `len` bytes have been
+        // received or the peer closed the connection.
         // SAFETY: Safe because we own rbuf and it's safe to fill a byte array with arbitrary data.
-        let (bytes, _) = unsafe { self.sock.recv_with_fds(&mut iovs, &mut [])? };
+        let (bytes, files) = unsafe { self.recv_into_iovec_all(&mut iovs)? };
+        // File descriptors are only accepted on the first byte of a message, i.e. its header.
+        if files.is_some() {
+            return Err(Error::InvalidMessage);
+        }
         Ok((bytes, rbuf))
     }
 
